@@ -72,3 +72,9 @@ Proof.
   intros HL Hv Ht. rewrite step_class_is_layout. unfold step_layout. rewrite HL, (parse_enc_layout L vs tail Hv Ht). reflexivity.
 Qed.
 Print Assumptions step_class_on_encoded.
+
+(* inhabited: a three-field layout (signed 4, unsigned 2, length-prefixed blob) with values that fit, followed by one more byte *)
+Example example_header : vals_ok [KS 4; KU 2; KBin] [LZ (-5)%Z; LN 513%N; LB [x01; x02; x03]]
+  /\ parse_layout [KS 4; KU 2; KBin] (enc_layout [KS 4; KU 2; KBin] [LZ (-5)%Z; LN 513%N; LB [x01; x02; x03]] ++ [x09])%list
+     = Ok [LZ (-5)%Z; LN 513%N; LB [x01; x02; x03]].
+Proof. split; [cbn; repeat split; lia | vm_compute; reflexivity]. Qed.
